@@ -73,7 +73,15 @@ def run(ids):
         assert out.strip() == "", "/repo not clean: " + out
         rc, out = sh(f"git -C /repo apply {d}/patch.diff")
         if rc != 0:
-            summary[i] = {"error": "patch does not apply"}; continue
+            # the tree has moved on since the seed was written (later fix: commits changed context lines): re-apply with fuzz and refresh the stored diff
+            rc, out = sh(f"patch -p1 -F3 -s --no-backup-if-mismatch < {d}/patch.diff", cwd="/repo")
+            if rc != 0:
+                sh("git -C /repo checkout -- . && git -C /repo clean -fdq -- probdiffeq")
+                summary[i] = {"error": "patch does not apply"}
+                print(i, "-> PATCH DOES NOT APPLY")
+                continue
+            rc2, newdiff = sh("git -C /repo diff -- probdiffeq")
+            open(f"{d}/patch.diff", "w").write(newdiff)
         try:
             hits = {}
             env = dict(os.environ, PDQVERIF_EVIDENCE_DIR="/tmp/scratch/ev_seed")  # evidence of a seeded tree never lands in /verif/evidence
@@ -85,7 +93,7 @@ def run(ids):
                     lines = [l for l in out.splitlines() if l.startswith(("REFUTED", "ANALYSIS-ERROR"))]
                     hits[p] = {"exit": rc, "first": lines[:2]}
         finally:
-            sh("git -C /repo checkout -- .")
+            sh("git -C /repo checkout -- . && git -C /repo clean -fdq -- probdiffeq")
         meta = json.load(open(f"{d}/meta.json"))
         summary[i] = {"property": meta["property"], "detected_by": hits}
         meta["checks_result"] = hits
